@@ -11,6 +11,18 @@ CHECKS = {
    text='Bounded symbolic verification of the ten SIMD kernels of src/math/util.rs: the real WithSimd::with_simd bodies and all their closures are executed from the MIR for every length 0..=130 and lane counts 2, 4 and 8 with every element symbolic; element-wise kernels must produce, element by element, the documented scalar formula (equal over the reals and one of the listed IEEE expression shapes, so NaN/inf propagate identically) and leave every other element untouched; reductions must equal the exact sum of the scalar terms and feed exactly those product terms to the add/fma tree.',
    note='pulp::Simd is modelled lane-wise (the x86 intrinsics behind V3/V4 are trusted); lengths above 130 and the faer-based low-rank products are outside; rustc MIR printer, mirsmt translator (validated on seeded concrete inputs), z3',
    technique='SMT (z3) over symbolic execution of rustc MIR; one query per (kernel, lanes, length, policy) with all element values symbolic'),
+ 'C01': dict(level='model_checking', design='4/C01',
+   text='Bounded symbolic verification of the real nuts::draw / NutsTree::{new,extend,merge_into,single_step,info} MIR against an oracle Hamiltonian with arbitrary positive site weights, an arbitrary U-turn bit per ordered pair of sites and arbitrary random words: (1) re-rooting invariance - from every point of every accepted trajectory the mirrored doubling choices rebuild the same trajectory with the same depth and stop reason; (2) detailed balance w[r] P(r->k|B) = w[k] P(k->r|B) of the multinomial selection for all weights (selection probabilities obtained by expanding the accept bits of the merged draw expression); (3) one fair direction bit per attempted doubling; plus the lemma logaddexp(a,b) = ln(e^a+e^b) from its own MIR.',
+   note='maxdepth <= 3 (re-rooting) / <= 2 (detailed balance) in the quick tier, 4 / 3 thorough; exact reals with weights in log normal form; rounding, deeper trees and the integrator (C02) are outside; oracle Hamiltonian, rand contracts, MIR printer, translator, z3 trusted',
+   technique='SMT (z3) over symbolic execution of rustc MIR with an oracle environment; path pairs (forward, re-rooted) and NRA queries for detailed balance'),
+ 'C03': dict(level='model_checking', design='4/C03',
+   text='Bounded symbolic verification of nuts::draw from the MIR with faults enabled (every leapfrog ok / divergent / unrecoverable, symbolic per site) for every maxdepth and mindepth within the bound: the returned state is the start or a state reached in the accepted trajectory (never in a rejected or faulty sub-tree), depth/steps/index bounds hold, index 0 iff unmoved, the stop reason and depth agree on every path with an independent symbolic reference of the doubling and U-turn rule over the same tables (never earlier or later), the maxdepth flag is exact, momentum is refreshed exactly once before the first step, dim = 0 and target_integration_time = Some(t) are covered separately.',
+   note='one transition from an arbitrary chain state; maxdepth <= 3 quick / <= 5 thorough; State handles abstract (the Rc pool protocol is not decided here); statistics extraction of NutsChain and the pool are listed as outside until built',
+   technique='SMT (z3) over symbolic execution of rustc MIR with an oracle environment; differential against a symbolic reference rule'),
+ 'C05': dict(level='model_checking', design='4/C05',
+   text='Bounded symbolic verification: (1) the real TransformedHamiltonian::leapfrog MIR for the three kinetic-energy kinds and both directions with the density/transformation as an arbitrary-result oracle - unrecoverable error => Err, recoverable => Divergence carrying the error, non-finite or too large energy error => Divergence with that error, otherwise Ok with finite energy error and finite log-density, collector notified exactly once; (2) the tree discards the faulty sub-tree at every fault position and returns Err iff the first fault reached is unrecoverable, with no reachable panic; (5) the mass-matrix collector rejects divergent draws near the start; (6) init_state rejects non-finite or zero-gradient starts.',
+   note='FP64u policy for the energy comparison (uninterpreted arithmetic, IEEE comparisons, lemma proved bit-precisely); one inductive chain step; step-size search and variance update guards are claimed under C07/C08 once built; user-code panics outside',
+   technique='SMT (z3) over symbolic execution of rustc MIR; fault position and kind are symbolic variables'),
 }
 NA = {
  'C04': 'statistical closed-loop claim (moments within Monte-Carlo error over >=1000 adapted draws); no bounded symbolic encoding exists for a solver to decide',
